@@ -440,6 +440,9 @@ func (m *Machine) store(addr Ptr, v Value) {
 	if m.frozen != nil && m.frozen[addr] {
 		m.globalWrite("store to package-level state")
 	}
+	if m.path.watch != nil && m.path.watch[addr] {
+		m.path.accesses = append(m.path.accesses, memAccess{addr, true, false, m.path.thread, m.where()})
+	}
 	switch dst := (*addr).(type) {
 	case Struct:
 		src := v.(Struct)
@@ -478,6 +481,9 @@ func (m *Machine) storeInto(addr *Value, v Value) {
 func (m *Machine) load(addr Ptr) Value {
 	if addr == nil {
 		m.throwRuntime("invalid memory address or nil pointer dereference")
+	}
+	if m.path.watch != nil && m.path.watch[addr] {
+		m.path.accesses = append(m.path.accesses, memAccess{addr, false, false, m.path.thread, m.where()})
 	}
 	return copyVal(*addr)
 }
@@ -624,4 +630,11 @@ func (m *Machine) toString(v Value) string {
 		return sb.String()
 	}
 	return fmt.Sprintf("%T", v)
+}
+
+func (m *Machine) where() string {
+	if m.cur != nil && m.cur.fr != nil {
+		return m.cur.fr.fn.String()
+	}
+	return ""
 }
